@@ -240,6 +240,51 @@ fn op_cases(e: &mut Env, rng: &mut Rng, n: u64) {
   }
 }
 
+/// `moc op extend|contract|extborder|intborder|fillexcept|fillholes` on space MOCs of depth <= 3: the decoded output must
+/// be what the library method returns on the decoded input (the methods themselves are judged by C17)
+fn geom_cases(e: &mut Env, rng: &mut Rng, n: u64) {
+  for _ in 0..n {
+    let d = rng.range(0, 3) as u8;
+    let a = gen_moc(rng, Q::S, 64, d, 6);
+    let wa = *rng.pick(&widths_for(Q::S, d));
+    let pa = e.p("geom_operand.fits");
+    std::fs::write(&pa, fits_bytes(&a, wa, rng.chance(1, 3))).unwrap();
+    let fmt = *rng.pick(&["fits", "ascii", "json"]);
+    let out = e.p("geom_out");
+    let _ = std::fs::remove_file(&out);
+    let mm: RangeMOC<u64, Hpx<u64>> = to_range_moc(&a);
+    let k = rng.below(3) as usize;
+    let frac = *rng.pick(&[0.0f64, 0.01, 0.1, 0.5, 1.0]);
+    let kind = rng.below(6);
+    let (mut args, exp): (Vec<String>, Result<RangeMOC<u64, Hpx<u64>>, String>) = match kind {
+      0 => (vec!["op".into(), "extend".into(), pa.to_str().unwrap().into()], catch(|| mm.expanded())),
+      1 => (vec!["op".into(), "contract".into(), pa.to_str().unwrap().into()], catch(|| mm.contracted())),
+      2 => (vec!["op".into(), "extborder".into(), pa.to_str().unwrap().into()], catch(|| mm.external_border())),
+      3 => (vec!["op".into(), "intborder".into(), pa.to_str().unwrap().into()], catch(|| mm.internal_border())),
+      4 => (vec!["op".into(), "fillexcept".into(), "-k".into(), k.to_string(), pa.to_str().unwrap().into()], catch(|| mm.fill_holes(Some(k)))),
+      _ => (vec!["op".into(), "fillholes".into(), format!("{}", frac), pa.to_str().unwrap().into()], catch(|| mm.fill_holes_smaller_than(frac))),
+    };
+    args.push(fmt.into());
+    args.push(out.to_str().unwrap().into());
+    let case = format!("GEOM {} # moc {} (input u{}, depth {}, out {})", a.dr(), args[..args.len() - 1].join(" "), wa, d, fmt);
+    e.rep.count(&format!("op:{}", args[1]));
+    let code = match e.run(&args, &case) {
+      Some(c) => c,
+      None => continue,
+    };
+    let exp = match exp {
+      Ok(m) => format!("OK {} {}", m.depth_max(), ranges_str(&m.moc_ranges().iter().map(|r| (r.start, r.end)).collect::<Vec<_>>())),
+      Err(_) => continue, // the library method itself fails: judged by C17
+    };
+    let got = decode_out(Q::S, fmt, &out).map(|(_, dd, r)| format!("OK {} {}", dd, ranges_str(&r)));
+    if code != 0 || got.as_deref() != Ok(exp.as_str()) {
+      e.rep.violation("the decoded output of a geometric `moc op` is not what the library method returns on the decoded input", &case, &format!("exit {} {:?}", code, got), &exp, "C19 (transparent front end) + C17");
+    } else if !a.r.is_empty() {
+      e.rep.nontrivial(&case);
+    }
+  }
+}
+
 fn convert_cases(e: &mut Env, rng: &mut Rng, n: u64) {
   for _ in 0..n {
     let q = ALL_Q[rng.below(3) as usize];
@@ -692,6 +737,7 @@ pub fn run(ctx: &Ctx) -> Report {
   op_cases(&mut e, &mut rng, ctx.n(500, 20_000));
   convert_cases(&mut e, &mut rng, ctx.n(250, 10_000));
   st_cases(&mut e, &mut rng, ctx.n(200, 8_000));
+  geom_cases(&mut e, &mut rng, ctx.n(120, 4_000));
   from_cases(&mut e, &mut rng, ctx.n(150, 6_000));
   invalid_cases(&mut e, &mut rng, ctx.n(120, 5_000));
   let calls = e.orc.calls;
